@@ -25,11 +25,12 @@ class Prop(BaseProp):
             "run under explicit schedules through the guarded schedule points; after every step the result, the tracked state and a digest of the cache files are compared with the model, which is "
             "given the directory listing order and the eviction victims the implementation chose; every hit is compared with the ground truth; "
             "non-trivial = at least 4 operations; distinct by sha256 of the case text")
-    kinds = ["seq", "evict", "damage", "damage", "known", "openwhile", "conc", "capchange", "exactcap", "race"]
+    kinds = ["plantkeys", "dmgcap", "seq", "evict", "damage", "damage", "known", "openwhile", "conc", "capchange", "exactcap", "race"]
+    per_kind_override = {"plantkeys": 3, "dmgcap": 6}
     allow_known = True
 
     def streams(self, rng, tier):
-        return cachegen.streams(rng, tier, self.kinds, allow_known=self.allow_known)
+        return cachegen.streams(rng, tier, self.kinds, allow_known=self.allow_known, per_kind_override=getattr(self, 'per_kind_override', None))
 
     def nontrivial(self, stream, case, io):
         if case["text"].count("|") >= 5:
